@@ -65,6 +65,9 @@ def gen_params(rng, stratum):
         p["depth"] = rng.choice([1, 1, 2, 4, 8, 15, 30])
         p["edge_frac"] = rng.choice([0.0, 0.3, 0.6])
         p["edge_ins"] = rng.choice([0.0, 0.5, 1.0]) if use_ref else 0.0
+        # soft / hard clips (up to 30 bases), =/X instead of M. With a reference only: the statement claims indels and MNPs
+        # "with a reference"; CIGAR-based detection of partially covered variants next to clips is C06's (narrower) business
+        p["decorate"] = rng.choice([0.0, 0.5]) if use_ref else 0.0
         p["ins_end"] = rng.choice([0.0, 0.5, 1.0]) if use_ref else 0.0  # reads ending with the anchor of an insertion or inside the inserted bases
     opts = {
         "reference": "FASTA" if use_ref else False,
